@@ -20,6 +20,7 @@ type Ctx struct {
 	Tier string
 	V    *Vocab
 	bw   *bwState
+	cp   *commitProto
 }
 
 // fn resolves an anchor function or records UNRESOLVED-ANCHOR.
